@@ -84,13 +84,13 @@ def shift_consistency():
     return ax
 
 
-def decoding_job(job_id, n, top_k, mode, source_filter=None):
+def decoding_job(job_id, n, top_k, mode, B=1, source_filter=None):
     """mode: 'plain' | 'topp' | 'tanh' | 'shift' | 'select'"""
     E = explore.EXP
     ctx = core.Ctx(job_id)
     w = world.make_world(source_filter=source_filter)
     dec = w.load("rl4co.utils.decoding")
-    ctx.bounds = {"n": n, "B": 1, "top_k": top_k, "mode": mode}
+    ctx.bounds = {"n": n, "B": B, "top_k": top_k, "mode": mode}
     ctx.stubs.update(["softmax/log_softmax: probability-vector contract (see vf/decoding.py)", "tanh: uninterpreted function into [-1,1]",
                       "multinomial: returns an index of positive weight", "exp: uninterpreted positive function, exp(-inf)=0"])
     ctx.assumptions.update(["logits finite reals", "mask has at least one True", "temperature > 0", "0 <= top_p <= 1", "tanh_clipping > 0 when used"])
@@ -107,9 +107,10 @@ def decoding_job(job_id, n, top_k, mode, source_filter=None):
 
     def harness():
         CALLS.clear()
-        L = T.sym_tensor("logit", (1, n), T.float32)
-        M = T.sym_tensor("mask", (1, n), T.bool_)
-        E.assume(z3.Or(*list(M.a[0])))
+        L = T.sym_tensor("logit", (B, n), T.float32)
+        M = T.sym_tensor("mask", (B, n), T.bool_)
+        for b in range(B):
+            E.assume(z3.Or(*list(M.a[b])))
         temp = sc("temperature", 0, None, lo_strict=True)
         top_p = sc("top_p", 0, 1) if mode == "topp" else 0.0
         clip = sc("clip", 0, None, lo_strict=True) if mode == "tanh" else 0
@@ -121,7 +122,8 @@ def decoding_job(job_id, n, top_k, mode, source_filter=None):
                 if E_.check(neg, *extra) == z3.sat:
                     m = E_.model()
                     reps.append({"kind": "script", "path": core.ROOT + "/vf/torch_side", "module": "decoding_side", "func": "run",
-                                 "params": {"logits": [float(core.model_value(m, x)) for x in Lin.a[0]], "mask": [bool(core.model_value(m, x)) for x in M.a[0]],
+                                 "params": {"logits": [[float(core.model_value(m, x)) for x in Lin.a[b]] for b in range(B)],
+                                            "mask": [[bool(core.model_value(m, x)) for x in M.a[b]] for b in range(B)],
                                             "temperature": float(core.model_value(m, temp.a[()])),
                                             "top_p": float(core.model_value(m, top_p.a[()])) if mode == "topp" else 0.0, "top_k": top_k,
                                             "tanh_clipping": float(core.model_value(m, clip.a[()])) if mode == "tanh" else 0.0,
@@ -135,57 +137,63 @@ def decoding_job(job_id, n, top_k, mode, source_filter=None):
         out = dec.process_logits(L, M, temperature=temp, top_p=top_p, top_k=top_k, tanh_clipping=clip)
         ctx.states += 1
         ctx.transitions += 1
-        final = [c for c in CALLS if c[2]][-1]
-        F = final[0]  # row handed to the final log_softmax
-        Mrow = list(M.a[0])
-        name = f"n={n} top_k={top_k} {mode}"
+        finals = [c for c in CALLS if c[2]][-B:]
+        sms = [c for c in CALLS if not c[2]][-B:]
         if E.obligations:
             obs, E.obligations = E.obligations, []
-            ctx.prove(E, f"[{name}] library preconditions hold ({obs[0][0]}, ...)", z3.And(*[_bool(c) for _, c in obs]), cex_builder)
-        ctx.prove(E, f"[{name}] masked actions get probability zero", all_([s_or(Mrow[i], F[i].ninf) for i in range(n)]), cex_builder)
-        ctx.prove(E, f"[{name}] at least one action keeps positive probability", any_([s_not(F[i].ninf) for i in range(n)]), cex_builder)
-        # Z = masked, clipped, temperature-scaled logits before filtering, re-derived independently
-        if mode == "tanh":
-            tl = [x for x in L.a[0]]  # process_logits wrote tanh(logits)*clip into a new tensor; recover via the UF on the inputs
-            Z = [T.s_div(T.s_mul(T._default_math_sym("tanh", Lin.a[0][i]), clip.a[()]), temp.a[()]) for i in range(n)]
-        else:
-            Z = [T.s_div(Lin.a[0][i], temp.a[()]) for i in range(n)]
-        feas_max = [s_and(Mrow[i], all_([s_or(s_not(Mrow[j]), s_ge(Z[i], Z[j])) for j in range(n)])) for i in range(n)]
-        ctx.prove(E, f"[{name}] a most likely feasible action survives filtering", any_([s_and(feas_max[i], s_not(F[i].ninf)) for i in range(n)]), cex_builder)
-        ctx.prove(E, f"[{name}] surviving entries are the scaled logits themselves", all_([s_or(F[i].ninf, s_eq(F[i].v, Z[i])) for i in range(n)]), cex_builder)
-        if top_k > 0:
-            k = min(top_k, n)
-            cond = all_([s_or(F[i].ninf, s_lt(ssum([s_where(s_and(Mrow[j], s_gt(Z[j], Z[i])), 1, 0) for j in range(n)], 0), k)) for i in range(n)])
-            ctx.prove(E, f"[{name}] top-k keeps only actions with fewer than k strictly better feasible actions", cond, cex_builder)
-        if mode == "topp":
-            sm = [c for c in CALLS if not c[2]]
-            if sm:
-                rin, rout, _ = sm[-1]
-                # the code's own softmax must be applied to a permutation (sorted view) of Z restricted by the mask/top-k
+            ctx.prove(E, f"[n={n} top_k={top_k} {mode}] library preconditions hold ({obs[0][0]}, ...)", z3.And(*[_bool(c) for _, c in obs]), cex_builder)
+        Fs, Zs = [], []
+        for b in range(B):
+            F = finals[b][0]  # row handed to the final log_softmax
+            Fs.append(F)
+            Mrow = list(M.a[b])
+            name = f"n={n} top_k={top_k} {mode} row{b}/{B}"
+            ctx.prove(E, f"[{name}] masked actions get probability zero", all_([s_or(Mrow[i], F[i].ninf) for i in range(n)]), cex_builder)
+            ctx.prove(E, f"[{name}] at least one action keeps positive probability", any_([s_not(F[i].ninf) for i in range(n)]), cex_builder)
+            # Z = masked, clipped, temperature-scaled logits before filtering, re-derived independently
+            if mode == "tanh":
+                Z = [T.s_div(T.s_mul(T._default_math_sym("tanh", Lin.a[b][i]), clip.a[()]), temp.a[()]) for i in range(n)]
+            else:
+                Z = [T.s_div(Lin.a[b][i], temp.a[()]) for i in range(n)]
+            Zs.append(Z)
+            feas_max = [s_and(Mrow[i], all_([s_or(s_not(Mrow[j]), s_ge(Z[i], Z[j])) for j in range(n)])) for i in range(n)]
+            ctx.prove(E, f"[{name}] a most likely feasible action survives filtering", any_([s_and(feas_max[i], s_not(F[i].ninf)) for i in range(n)]), cex_builder)
+            ctx.prove(E, f"[{name}] surviving entries are the scaled logits themselves", all_([s_or(F[i].ninf, s_eq(F[i].v, Z[i])) for i in range(n)]), cex_builder)
+            if top_k > 0:
+                k = min(top_k, n)
+                cond = all_([s_or(F[i].ninf, s_lt(ssum([s_where(s_and(Mrow[j], s_gt(Z[j], Z[i])), 1, 0) for j in range(n)], 0), k)) for i in range(n)])
+                ctx.prove(E, f"[{name}] top-k keeps only actions with fewer than k strictly better feasible actions", cond, cex_builder)
+            if mode == "topp" and len(sms) == B:
+                rin, rout, _ = sms[b]
                 pre = [XR(False, Z[i], s_not(Mrow[i])) for i in range(n)] if top_k == 0 else None
                 if pre is not None:
                     perm_ok = all_([any_([s_and(s_eq(rin[r].ninf, pre[i].ninf), s_or(pre[i].ninf, s_eq(rin[r].v, pre[i].v))) for i in range(n)]) for r in range(n)])
                     ctx.prove(E, f"[{name}] top-p statistics are computed on the unfiltered (masked, scaled) distribution", perm_ok, cex_builder)
-                # kept mass: entries of the sorted row whose value survives; value-based (ties move together)
                 kept_mass = 0
                 for r in range(n):
                     survives = any_([s_and(s_not(F[i].ninf), s_and(s_not(rin[r].ninf), s_eq(F[i].v, rin[r].v))) for i in range(n)])
                     kept_mass = kept_mass + z3.If(_bool(survives), rout[r], 0)
                 ctx.prove(E, f"[{name}] kept probability mass >= top_p", kept_mass >= top_p.a[()] - slack, cex_builder)
         if mode == "shift":
-            first_calls = len(CALLS)
-            L2 = T.Tensor(np.array([[T.s_add(x, shift) for x in Lin.a[0]]], dtype=object), T.float32)
-            out2 = dec.process_logits(L2, M.clone(), temperature=temp, top_p=0.0, top_k=top_k, tanh_clipping=0)
-            F2 = [c for c in CALLS if c[2]][-1][0]
-            same = all_([s_and(s_eq(F[i].ninf, F2[i].ninf), s_or(F[i].ninf, s_eq(T.s_sub(F2[i].v, F[i].v), T.s_div(shift, temp.a[()])))) for i in range(n)])
-            ctx.prove(E, f"[{name}] adding a constant to all logits shifts the surviving logits uniformly and keeps the same support (log_softmax is shift invariant)", same, cex_builder)
+            L2 = T.Tensor(np.array([[T.s_add(x, shift) for x in Lin.a[b]] for b in range(B)], dtype=object), T.float32)
+            dec.process_logits(L2, M.clone(), temperature=temp, top_p=0.0, top_k=top_k, tanh_clipping=0)
+            F2s = [c for c in CALLS if c[2]][-B:]
+            for b in range(B):
+                F, F2 = Fs[b], F2s[b][0]
+                same = all_([s_and(s_eq(F[i].ninf, F2[i].ninf), s_or(F[i].ninf, s_eq(T.s_sub(F2[i].v, F[i].v), T.s_div(shift, temp.a[()])))) for i in range(n)])
+                ctx.prove(E, f"[n={n} top_k={top_k} shift row{b}/{B}] adding a constant to all logits shifts the surviving logits uniformly and keeps the same support (log_softmax is shift invariant)", same, cex_builder)
         if mode == "select":
-            g = dec.DecodingStrategy.greedy(out, M)
-            gi = g.a[0]
-            ctx.prove(E, f"[{name}] greedy picks a feasible maximiser", all_([s_or(s_not(s_eq(gi, i)), s_and(Mrow[i], all_([s_or(F[j].ninf, s_ge(F[i].v, F[j].v)) for j in range(n)]))) for i in range(n)]), cex_builder)
-            s_ = dec.DecodingStrategy.sampling(out, M)
-            si = s_.a[0]
-            ctx.prove(E, f"[{name}] sampling only returns feasible actions of positive probability", all_([s_or(s_not(s_eq(si, i)), s_and(Mrow[i], s_not(F[i].ninf))) for i in range(n)]), cex_builder)
+            try:
+                g = dec.DecodingStrategy.greedy(out, M)
+                s_ = dec.DecodingStrategy.sampling(out, M)
+            except AssertionError as e:
+                ctx.prove(E, f"[n={n} top_k={top_k} select] the library's own assertion '{e}' is unreachable", False, cex_builder)
+                return
+            for b in range(B):
+                F, Mrow = Fs[b], list(M.a[b])
+                gi, si = g.a[b], s_.a[b]
+                ctx.prove(E, f"[n={n} top_k={top_k} select row{b}/{B}] greedy picks a feasible maximiser", all_([s_or(s_not(s_eq(gi, i)), s_and(Mrow[i], all_([s_or(F[j].ninf, s_ge(F[i].v, F[j].v)) for j in range(n)]))) for i in range(n)]), cex_builder)
+                ctx.prove(E, f"[n={n} top_k={top_k} select row{b}/{B}] sampling only returns feasible actions of positive probability", all_([s_or(s_not(s_eq(si, i)), s_and(Mrow[i], s_not(F[i].ninf))) for i in range(n)]), cex_builder)
         if not ctx.witness and E.check(slack == 0) == z3.sat:
             ctx.witness.append({"note": "satisfiable path"})
 
